@@ -735,6 +735,21 @@ func (sc *SpecCtx) call(x *SX) Val {
 	case "bytesEqual", "bytes.Equal":
 		need(2)
 		return sc.bytesEqual(sc.eval(args[0]), sc.eval(args[1]))
+	case "hasType", "unboxed":
+		// hasType(x, T): interface value x is non-nil with dynamic type T;
+		// unboxed(x, T): the T value it holds
+		need(2)
+		v := sc.eval(args[0])
+		tn := args[1].String()
+		if args[1].K == "str" {
+			tn = args[1].Op // type written as a string literal, e.g. "*mempoolTx"
+		}
+		ty := sc.lookupType(strings.ReplaceAll(strings.ReplaceAll(tn, "(", ""), ")", ""))
+		_, unbox := vc.boxFns(ty)
+		if name == "hasType" {
+			return Val{Ty: specBool, T: and(not(eq(v.T, intLit(0))), eq(app(SInt, "typetag", v.T), vc.typeTag(ty)))}
+		}
+		return Val{Ty: ty, T: app(vc.sortOf(ty), unbox, v.T)}
 	case "aminoDecoded":
 		// aminoDecoded(T, bz): the value amino.Unmarshal(bz, &x) stores in x of type T
 		// (the same uninterpreted function the extern model of amino.Unmarshal uses)
